@@ -145,6 +145,13 @@ def small_spec(rng):
 REFUSED = [0, 0]
 
 
+def json_names_taken(holder, but=None):
+    """JSON names already in use by the properties of one object (two properties under ONE JSON name is not a
+    configuration any statement speaks about: a JSON object has one member per name)."""
+    return {(spec_p.get("source") if spec_p.get("source") is not None else attr)
+            for attr, spec_p in holder.items() if attr != but}
+
+
 def apply_step(rng, spec, root, notpassed):
     """Pick and apply one reconfiguration to (spec, live tree).  Returns kind or None."""
     nodes = walk(spec)
@@ -283,6 +290,10 @@ def apply_step(rng, spec, root, notpassed):
             name = rng.choice(gen_dsl.PY_NAMES + list(gen_dsl.RENAMES))
             pspec = {"el": small_spec(rng), "required": rng.random() < 0.5,
                      "source": gen_dsl.RENAMES.get(name)}
+            if (pspec["source"] if pspec["source"] is not None else name) in json_names_taken(holder, but=name):
+                # (a property moved to another attribute earlier keeps its JSON name: do not declare that
+                # name a second time under the attribute it came from)
+                continue
             holder[name] = pspec
             from vlib import sut  # pylint: disable=import-outside-toplevel
 
@@ -396,6 +407,8 @@ def apply_step(rng, spec, root, notpassed):
                 new_source = rng.choice([None, name + "_json", "SRC_" + name])
                 if new_source == old_source:
                     new_source = name + "_other"
+                if (new_source if new_source is not None else name) in json_names_taken(holder, but=name):
+                    continue
                 pspec = {"el": small_spec(rng), "required": rng.random() < 0.5, "source": new_source}
                 holder[name] = pspec
                 live.properties[name] = sut.Property(
